@@ -30,11 +30,15 @@ def gen_cases(ctx):
         cases.append((S.corpus_expr("expr\t" + e) if not e.startswith("hex:") else C.unhexs(e[4:]), d))
     pairs, docs = G.compliance_suite(C.REPO)
     core = [(e, d) for e, d in pairs]
-    for _ in range(4000 if q else 120000):
+    for _ in range(4000 if q else 600000):
         cases.append((rng.choice(core)[0], rng.choice(docs)))
     eg = G.ExprGen(rng, funcs=False)
-    for _ in range(6000 if q else 200000):
+    for _ in range(6000 if q else 1000000):
         cases.append((G.spell(rng, eg.expr()), G.rand_doc(rng, rng.choice([2, 3, 3, 4]))))
+    # comparators on pairs of values that are equal / differ in exactly one number, string or member name
+    for _ in range(1500 if q else 200000):
+        a, b = G.near_pair(rng)
+        cases.append((rng.choice(G.CMP_EXPRS), "[ " + a + " " + b + " ]"))
     return cases
 
 
